@@ -1,7 +1,9 @@
 (* C05 -- a panicking element destructor never causes a second drop or a stale read.
    Statements only; proofs in theories/IterDropProofs.v. *)
 From Coq Require Import Permutation.
-From GA Require Import Base Iter IterProofs IterDropProofs.
+From Coq Require Import String.
+From GA Require Import Base Iter IterProofs IterDropProofs MuRust IterTie.
+From GAGen Require Import GenIter.
 
 (* Every history: any array (distinct identities), any sequence of next / next_back /
    nth n / nth_back n (every n, the caller catching every unwind and carrying on),
@@ -32,3 +34,46 @@ Proof. exact nth_buggy_refuted. Qed.
 Theorem C05_prefix_order_back_refuted :
   exists a ops f bomb, NoDup a /\ ~ NoDup (releases (dtrace dstep_buggy bomb a ops f)).
 Proof. exact nth_back_buggy_refuted. Qed.
+
+(* ---- tie to the current source (regenerated on every run by tools/ga2coq) ----
+   The method bodies of /repo/src/iter.rs, translated statement by statement into
+   coq/gen/GenIter.v, compute exactly the hub functions the theorems above are about --
+   including the order "index moved, then the skipped range dropped" and what is left in
+   the iterator when a destructor panics. *)
+Theorem C05_source_nth : forall s b n, Inv s -> bounded s -> (0 <= n < two64)%Z ->
+  call iter_table DEPTH "nth" [VInt n] (embed s) b = lift4 (nth_ b s n).
+Proof. exact tie_nth. Qed.
+
+Theorem C05_source_nth_back : forall s b n, Inv s -> bounded s -> (0 <= n < two64)%Z ->
+  call iter_table DEPTH "nth_back" [VInt n] (embed s) b = lift4 (nth_back_ b s n).
+Proof. exact tie_nth_back. Qed.
+
+Theorem C05_source_drop : forall s b, Inv s -> bounded s ->
+  drop3 (call iter_table DEPTH "drop" [] (embed s) b) =
+  (let '(fired, b', e) := drop_it b s in ((if fired then MPanic else MRet VUnit), b', e)).
+Proof. exact tie_drop. Qed.
+
+Theorem C05_source_count : forall s b, Inv s -> bounded s ->
+  drop3 (call iter_table DEPTH "count" [] (embed s) b) =
+  (let '(r, b', e) := count_ b s in
+   (match r with Ret n => MRet (VInt (Z.of_nat n)) | Panicked => MPanic | UB => MUB end, b', e)).
+Proof. exact tie_count. Qed.
+
+Theorem C05_source_last : forall s b, Inv s -> bounded s ->
+  drop3 (call iter_table DEPTH "last" [] (embed s) b) =
+  (let '(r, b', e) := last_ b s in (lift_res r, b', e)).
+Proof. exact tie_last. Qed.
+
+(* internal.rs: Drop of ArrayBuilder / IntrusiveArrayBuilder releases slots [0, position),
+   Drop of ArrayConsumer releases slots [position, N) *)
+Theorem C05_source_builder_drop : forall slots0 p b, p <= length slots0 ->
+  drop3 (call builder_table DEPTH "drop" [] (with_pos slots0 p) b) =
+  (let '(fired, b', e) := drop_list b (firstn p slots0) in ((if fired then MPanic else MRet VUnit), b', e)) /\
+  drop3 (call ibuilder_table DEPTH "drop" [] (with_pos slots0 p) b) =
+  (let '(fired, b', e) := drop_list b (firstn p slots0) in ((if fired then MPanic else MRet VUnit), b', e)).
+Proof. exact tie_builder_drop. Qed.
+
+Theorem C05_source_consumer_drop : forall slots0 p b, p <= length slots0 ->
+  drop3 (call consumer_table DEPTH "drop" [] (with_pos slots0 p) b) =
+  (let '(fired, b', e) := drop_list b (skipn p slots0) in ((if fired then MPanic else MRet VUnit), b', e)).
+Proof. exact tie_consumer_drop. Qed.
